@@ -27,7 +27,6 @@ __all__ = ["ArrayMap", "PerCPUArrayMap"]
 from collections.abc import Sequence
 from itertools import chain
 from mmap import mmap
-from os import cpu_count
 from struct import pack, pack_into, unpack_from
 
 from .bpf import MapFlags, MapType, create_map, lookup_elem, update_elem
@@ -217,7 +216,12 @@ class PerCPUArrayMap(ArrayMap):
         return PerCPUVarDesc(self, fmt)
 
     def create_map(self, ebpf, fd):
-        self.cpu_no = cpu_count()
+        # the kernel transfers one value per possible CPU, not per online one
+        with open("/sys/devices/system/cpu/possible") as fin:
+            self.cpu_no = sum(int(last or first) - int(first) + 1
+                              for first, _, last in (
+                                  r.partition("-")
+                                  for r in fin.read().split(",")))
         if fd is None:
             fd = create_map(MapType.PERCPU_ARRAY, 4, self.size, 1)
         setattr(ebpf, self.name, PerCPUReader(self, fd))
